@@ -33,7 +33,18 @@ Layouts == {Config(o, inf[1], inf[2], hp, v, l, sz[1], nout, nann, sz[2], st) :
               sz \in Sizes, nout \in 1..3, nann \in 0..2, st \in Styles}
 MarkerSweep == {Config(o, "", "narrow", hp, v, FALSE, 2, nout, 0, 3, "wide") : o \in {"rows", "cols"}, hp \in Markers, v \in BOOLEAN, nout \in 1..2}
 
+\* multi-line cells whose lines fill the cell from border to border (no padding: the line break is the only separator
+\* between the last word of one line and the first of the next)
+TightMulti == {[Config(o, "", "narrow", "F", FALSE, l, 1, nout, nann, 2, "multitight") EXCEPT
+                  !.ins = <<[expr |-> "Alpha Gamma", vals |-> "<50, >=50"]>>,
+                  !.rules = [r \in 1..2 |-> [@[r] EXCEPT !.ins = <<IF r = 1 THEN "<10" ELSE ">=10">>]]]
+                : o \in {"rows", "cols"}, l \in BOOLEAN, nout \in 1..2, nann \in 0..1}
+\* input expressions that are single letters - among them the letters of the hit policy markers, in lower case
+LetterSweep == {[Config(o, "", "narrow", hp, v, FALSE, 2, nout, nann, 2, "tight") EXCEPT
+                   !.ins = <<[expr |-> first, vals |-> "<50, >=50"], [expr |-> "b", vals |-> "<50, >=50"]>>]
+                : o \in {"rows", "cols"}, hp \in {"U", "C"}, v \in BOOLEAN, nout \in 1..2, nann \in 0..1, first \in {"a", "p", "c", "u", "o", "f", "r", "x"}}
+
 VARIABLE c
-Init == c \in Layouts \cup MarkerSweep /\ PrintT(<<"CASE", ToJson(c)>>)
+Init == c \in Layouts \cup MarkerSweep \cup TightMulti \cup LetterSweep /\ PrintT(<<"CASE", ToJson(c)>>)
 Next == FALSE /\ c' = c
 =============================================================================
